@@ -117,5 +117,15 @@ def r18_5(ctx):
 r18_5.rule_id = "R18.5"
 
 
-RULES = [r18_1, r18_2, r18_3, r18_4, r18_5]
-FLOORS = {"R18.1": 100, "R18.2": 6, "R18.3": 8, "R18.4": 4, "R18.5": 2}
+def r18_6(ctx):
+    """EllenBinTree: every path of try_insert that publishes the (re-used) new internal node applies the same setters to it - a necessary
+    condition of 'routing keys direct every search to the right leaf' at quiescent points"""
+    from . import ellen
+    n = ellen.rule_publish_init_agreement(ctx, "R18.6", "Otherwise a present key becomes unreachable and the leaves fall out of order (C18).")
+    if n < 3:
+        ctx.broken("EllenBinTree::try_insert publishing paths not found (%d)" % n)
+r18_6.rule_id = "R18.6"
+
+
+RULES = [r18_1, r18_2, r18_3, r18_4, r18_5, r18_6]
+FLOORS = {"R18.1": 100, "R18.2": 6, "R18.3": 8, "R18.4": 4, "R18.5": 2, "R18.6": 3}
